@@ -9,8 +9,8 @@
    Model/DateFun.v transcribes the eval_* wrappers of src/sql/functions/datetime.rs around the helpers
    REGENERATED from that file (Gen/CalFunc.v); the Spec is the calendar of Model/Calendar.v (C41). *)
 From Coq Require Import ZArith List Bool.
-From TV Require Import Lib.MachInt Model.Arith Model.Utf8 Model.StrFun Model.Calendar Model.DateFun.
-From TV Require Import Proof.Arith Proof.Utf8 Proof.StrFind Proof.StrFun Proof.DateFun.
+From TV Require Import Lib.MachInt Model.Arith Model.Utf8 Model.StrFun Model.Calendar Model.DateFun Model.Cast.
+From TV Require Import Proof.Arith Proof.Utf8 Proof.StrFind Proof.StrFun Proof.DateFun Proof.Cast.
 Import ListNotations.
 Open Scope Z_scope.
 
@@ -109,6 +109,11 @@ Theorem utf8_find_self_sync : forall n h i, cps_ok n = true -> cps_ok h = true -
   find_from (encode_utf8 n) (encode_utf8 h) i =
   option_map (fun pre => i + blen (encode_utf8 pre)) (find_pre n h).
 Proof. exact find_bytes_chars. Qed.
+
+(* bytewise comparison of encodings orders them like the code point lists (Rust's Ord for str) *)
+Theorem utf8_byte_order : forall a b, cps_ok a = true -> cps_ok b = true ->
+  cmp_lex (encode_utf8 a) (encode_utf8 b) = cmp_lex a b.
+Proof. exact cmp_lex_encode. Qed.
 
 (* ---------------------------------------------------------------- string functions, every valid UTF-8 input *)
 Theorem char_length_counts_chars : forall cs, cps_ok cs = true ->
@@ -214,6 +219,10 @@ Theorem concat_correct : forall a b, eval_sfn SConcat [VText (encode_utf8 a); VT
   eval_sfn SConcat [VText (encode_utf8 a); VNull] = OVal VNull /\ eval_sfn SConcat [VNull; VText (encode_utf8 b)] = OVal VNull.
 Proof. exact concat_l. Qed.
 
+Theorem strcmp_code_point_order : forall a b, cps_ok a = true -> cps_ok b = true ->
+  eval_sfn SStrcmp [VText (encode_utf8 a); VText (encode_utf8 b)] = OVal (VInt (cmp_lex a b)).
+Proof. exact strcmp_l. Qed.
+
 Theorem str_null_in_null_out : forall s n p,
   to_sql (eval_sfn SLength [VNull]) = OVal VNull /\ to_sql (eval_sfn SCharLength [VNull]) = OVal VNull /\
   to_sql (eval_sfn SReverse [VNull]) = OVal VNull /\ to_sql (eval_sfn SUpper [VNull]) = OVal VNull /\
@@ -277,6 +286,18 @@ Theorem date_refuted :
   eval_dfn DDateSub [DDate 2024 1 1; DNum 92233720368547758] = OPanic.
 Proof. exact date_refuted_l. Qed.
 
+(* ---------------------------------------------------------------- CAST *)
+(* the decimal text of every i64 parses back to it: CAST(CAST(n AS TEXT) AS INTEGER) = n *)
+Theorem cast_roundtrip : forall n, in_i64 n = true -> parse_i64 (to_string_i64 n) = Some n.
+Proof. exact cast_roundtrip_l. Qed.
+
+Theorem cast_correct : forall n, in_i64 n = true ->
+  eval_cast KInt (VInt n) = OVal (VInt n) /\ eval_cast KText (VInt n) = OVal (VText (to_string_i64 n)) /\
+  eval_cast KInt (VText (to_string_i64 n)) = OVal (VInt n) /\ eval_cast KIntOfText (VInt n) = OVal (VInt n) /\
+  eval_cast KBool (VInt n) = OVal (VInt (if n =? 0 then 0 else 1)) /\
+  eval_cast KInt VNull = OVal VNull /\ eval_cast KText VNull = OVal VNull /\ eval_cast KBool VNull = OVal VNull.
+Proof. exact cast_l. Qed.
+
 (* non-vacuity: hypotheses are met by non-trivial inputs, every kind of outcome occurs *)
 Example c20_arith_witness :
   let e := EBin Add (EBin Mul (ELit 3037000499) (ELit 3037000499)) (EUn Neg (EBin Pow (ELit 2) (ELit 62))) in
@@ -296,6 +317,13 @@ Example c20_str_witness :
   sfn_class SInstr [VText (encode_utf8 cs); VText [108]] = 4 /\ sfn_class SInstr [VText (encode_utf8 cs); VText [104]] = 0 /\
   eval_sfn SLocate [VText [108]; VText (encode_utf8 cs)] = OVal (VInt 3) /\
   decode_utf8 [192; 128] = None /\ decode_utf8 [237; 160; 128] = None /\ decode_utf8 [244; 144; 128; 128] = None /\ decode_utf8 [226; 130] = None.
+Proof. vm_compute. repeat split. Qed.
+
+Example c20_cast_witness :
+  to_string_i64 (-9223372036854775808) = [45; 57; 50; 50; 51; 51; 55; 50; 48; 51; 54; 56; 53; 52; 55; 55; 53; 56; 48; 56] /\
+  parse_i64 [43; 49; 50] = Some 12 /\ parse_i64 [32; 49; 50] = None /\ parse_i64 [45] = None /\
+  parse_i64 [57; 50; 50; 51; 51; 55; 50; 48; 51; 54; 56; 53; 52; 55; 55; 53; 56; 48; 56] = None /\
+  cmp_lex [233] [122] = 1 /\ cmp_lex (encode_utf8 [233]) (encode_utf8 [122]) = 1 /\ cmp_lex [97] [97; 0] = -1.
 Proof. vm_compute. repeat split. Qed.
 
 Example c20_date_witness :
@@ -320,6 +348,7 @@ Check utf8_roundtrip : forall cps, cps_ok cps = true -> decode_utf8 (encode_utf8
 Check utf8_decode_valid : forall b cps, decode_utf8 b = Some cps -> encode_utf8 cps = b /\ cps_ok cps = true.
 Check utf8_encode_bytes : forall cps, cps_ok cps = true -> bytes_ok (encode_utf8 cps) = true.
 Check utf8_find_self_sync : forall n h i, cps_ok n = true -> cps_ok h = true -> find_from (encode_utf8 n) (encode_utf8 h) i = option_map (fun pre => i + blen (encode_utf8 pre)) (find_pre n h).
+Check utf8_byte_order : forall a b, cps_ok a = true -> cps_ok b = true -> cmp_lex (encode_utf8 a) (encode_utf8 b) = cmp_lex a b.
 Check char_length_counts_chars : forall cs, cps_ok cs = true -> eval_sfn SCharLength [VText (encode_utf8 cs)] = OVal (VInt (zlen cs)).
 Check length_counts_bytes : forall cs, cps_ok cs = true -> eval_sfn SLength [VText (encode_utf8 cs)] = OVal (VInt (blen (encode_utf8 cs))) /\ zlen cs <= blen (encode_utf8 cs) /\ (blen (encode_utf8 cs) = zlen cs <-> is_ascii cs = true).
 Check slicing_on_chars : forall cs n, cps_ok cs = true -> eval_sfn SLeft [VText (encode_utf8 cs); VInt n] = OVal (VText (encode_utf8 (if n <? 0 then [] else take_z n cs))) /\ eval_sfn SRight [VText (encode_utf8 cs); VInt n] = OVal (VText (encode_utf8 (if n <? 0 then [] else skip_z (zlen cs - Z.min n (zlen cs)) cs))) /\ eval_sfn SReverse [VText (encode_utf8 cs)] = OVal (VText (encode_utf8 (rev cs))).
@@ -334,6 +363,7 @@ Check pad_on_chars : forall cs pcs n, cps_ok cs = true -> cps_ok pcs = true -> 0
 Check trim_on_chars : forall cs, cps_ok cs = true -> eval_sfn STrim [VText (encode_utf8 cs)] = OVal (VText (encode_utf8 (trim_by is_ws cs))) /\ eval_sfn SLtrim [VText (encode_utf8 cs)] = OVal (VText (encode_utf8 (trim_start_by is_ws cs))) /\ eval_sfn SRtrim [VText (encode_utf8 cs)] = OVal (VText (encode_utf8 (trim_end_by is_ws cs))).
 Check case_ascii : forall cs, is_ascii cs = true -> eval_sfn SUpper [VText (encode_utf8 cs)] = OVal (VText (map ascii_up cs)) /\ eval_sfn SLower [VText (encode_utf8 cs)] = OVal (VText (map ascii_low cs)).
 Check concat_correct : forall a b, eval_sfn SConcat [VText (encode_utf8 a); VText (encode_utf8 b)] = OVal (VText (encode_utf8 (a ++ b))) /\ eval_sfn SConcat [VText (encode_utf8 a); VNull] = OVal VNull /\ eval_sfn SConcat [VNull; VText (encode_utf8 b)] = OVal VNull.
+Check strcmp_code_point_order : forall a b, cps_ok a = true -> cps_ok b = true -> eval_sfn SStrcmp [VText (encode_utf8 a); VText (encode_utf8 b)] = OVal (VInt (cmp_lex a b)).
 Check str_null_in_null_out : forall s n p, to_sql (eval_sfn SLength [VNull]) = OVal VNull /\ to_sql (eval_sfn SCharLength [VNull]) = OVal VNull /\ to_sql (eval_sfn SReverse [VNull]) = OVal VNull /\ to_sql (eval_sfn SUpper [VNull]) = OVal VNull /\ to_sql (eval_sfn SLeft [VNull; VInt n]) = OVal VNull /\ to_sql (eval_sfn SLeft [VText s; VNull]) = OVal VNull /\ to_sql (eval_sfn SRight [VNull; VInt n]) = OVal VNull /\ to_sql (eval_sfn SRight [VText s; VNull]) = OVal VNull /\ to_sql (eval_sfn SSubstr [VNull; VInt n]) = OVal VNull /\ to_sql (eval_sfn SSubstr [VText s; VNull]) = OVal VNull /\ to_sql (eval_sfn SInstr [VNull; VText p]) = OVal VNull /\ to_sql (eval_sfn SInstr [VText s; VNull]) = OVal VNull /\ to_sql (eval_sfn SLocate [VNull; VText p]) = OVal VNull /\ to_sql (eval_sfn SLocate [VText s; VNull]) = OVal VNull /\ to_sql (eval_sfn SLpad [VNull; VInt n; VText p]) = OVal VNull /\ to_sql (eval_sfn SLpad [VText s; VNull; VText p]) = OVal VNull /\ to_sql (eval_sfn SLpad [VText s; VInt n; VNull]) = OVal VNull /\ to_sql (eval_sfn SRpad [VText s; VInt n; VNull]) = OVal VNull /\ to_sql (eval_sfn SRepeat [VNull; VInt n]) = OVal VNull /\ to_sql (eval_sfn SRepeat [VText s; VNull]) = OVal VNull /\ to_sql (eval_sfn STrim [VNull]) = OVal VNull /\ to_sql (eval_sfn SStrcmp [VText s; VNull]) = OVal VNull.
 Check str_refuted : eval_sfn SInstr [VText [195; 169; 97]; VText [97]] = OVal (VInt 3) /\ str_exact SInstr [VText [195; 169; 97]; VText [97]] = SInt 2 /\ sfn_class SInstr [VText [195; 169; 97]; VText [97]] = 4 /\ eval_sfn SSubstr [VText [97; 98; 99]; VInt i64_min] = OPanic /\ sfn_class SSubstr [VText [97; 98; 99]; VInt i64_min] = 5 /\ eval_sfn SLpad [VText [97]; VInt (-1); VText [120]] = OPanic /\ sfn_class SLpad [VText [97]; VInt (-1); VText [120]] = 6 /\ eval_sfn SSubstr [VText [97; 98; 99]; VInt 2; VNull] = OVal (VText [98; 99]) /\ str_exact SSubstr [VText [97; 98; 99]; VInt 2; VNull] = SNull /\ sfn_class SSubstr [VText [97; 98; 99]; VInt 2; VNull] = 7.
 Check date_fields : forall y m d, real_date y m d = true -> eval_dfn DYear [DDate y m d] = OVal (VInt y) /\ eval_dfn DMonth [DDate y m d] = OVal (VInt m) /\ eval_dfn DDay [DDate y m d] = OVal (VInt d).
@@ -343,6 +373,8 @@ Check date_add_correct : forall y m d y' m' d', real_date y m d = true -> real_d
 Check from_days_inverts_to_days : forall y m d, real_date y m d = true -> eval_dfn DFromDays [DNum (rata_die y m d + 1)] = OVal (VText (fmt_date y m d)).
 Check date_null_in_null_out : forall f rest, to_sql (eval_dfn f (DNullA :: rest)) = OVal VNull.
 Check date_refuted : eval_dfn DDateAdd [DDate 2024 1 1; DNum i64_max] = OPanic /\ dfn_class DDateAdd [DDate 2024 1 1; DNum i64_max] = 8 /\ eval_dfn DFromDays [DNum i64_max] = OPanic /\ dfn_class DFromDays [DNum i64_max] = 8 /\ eval_dfn DDateSub [DDate 2024 1 1; DNum 92233720368547758] = OPanic.
+Check cast_roundtrip : forall n, in_i64 n = true -> parse_i64 (to_string_i64 n) = Some n.
+Check cast_correct : forall n, in_i64 n = true -> eval_cast KInt (VInt n) = OVal (VInt n) /\ eval_cast KText (VInt n) = OVal (VText (to_string_i64 n)) /\ eval_cast KInt (VText (to_string_i64 n)) = OVal (VInt n) /\ eval_cast KIntOfText (VInt n) = OVal (VInt n) /\ eval_cast KBool (VInt n) = OVal (VInt (if n =? 0 then 0 else 1)) /\ eval_cast KInt VNull = OVal VNull /\ eval_cast KText VNull = OVal VNull /\ eval_cast KBool VNull = OVal VNull.
 
 Print Assumptions arith_in_range_correct.
 Print Assumptions arith_null.
@@ -359,6 +391,7 @@ Print Assumptions utf8_roundtrip.
 Print Assumptions utf8_decode_valid.
 Print Assumptions utf8_encode_bytes.
 Print Assumptions utf8_find_self_sync.
+Print Assumptions utf8_byte_order.
 Print Assumptions char_length_counts_chars.
 Print Assumptions length_counts_bytes.
 Print Assumptions slicing_on_chars.
@@ -373,6 +406,7 @@ Print Assumptions pad_on_chars.
 Print Assumptions trim_on_chars.
 Print Assumptions case_ascii.
 Print Assumptions concat_correct.
+Print Assumptions strcmp_code_point_order.
 Print Assumptions str_null_in_null_out.
 Print Assumptions str_refuted.
 Print Assumptions date_fields.
@@ -382,3 +416,5 @@ Print Assumptions date_add_correct.
 Print Assumptions from_days_inverts_to_days.
 Print Assumptions date_null_in_null_out.
 Print Assumptions date_refuted.
+Print Assumptions cast_roundtrip.
+Print Assumptions cast_correct.
